@@ -262,7 +262,27 @@ KNOWN_COLUMN = {
     ("polars", "_da_extend_temp_partition_column"): ("polars_model.PolarsModel._extend_step", "ExtendNode"),
     ("polars", "_da_project_temp_group_by_column"): ("polars_model.PolarsModel._project_step", "ProjectNode"),
     ("polars", "_da_temp_one_column"): ("polars_model.ExpressionRequirementsCollector.add_in_temp_columns", "ExtendNode|ProjectNode"),
+    # helper columns that hold a CONSTANT first argument of an aggregate, e.g. (1).sum(): only with such an argument
+    ("pandas", "data_algebra_extend_temp_col_*"): ("pandas_base.PandasModelBase._extend_step", "ExtendNode+value-arg"),
+    ("pandas", "data_algebra_project_temp_col_*"): ("pandas_base.PandasModelBase._project_step", "ProjectNode+value-arg"),
+    ("polars", "_da_extend_temp_v_column_*"): ("polars_model.PolarsModel._extend_step", "ExtendNode+value-arg"),
+    ("polars", "_da_project_temp_v_column_*"): ("polars_model.PolarsModel._project_step", "ProjectNode+value-arg"),
 }
+
+
+def _has_value_arg(ops, node_type: str) -> bool:
+    """some node of that type has an expression whose first argument is a constant"""
+    import data_algebra.expr_rep as er
+
+    stack = [ops]
+    while stack:
+        n = stack.pop()
+        if type(n).__name__ == node_type:
+            for t in getattr(n, "ops", {}).values():
+                if isinstance(t, er.Expression) and len(t.args) > 0 and isinstance(t.args[0], er.Value):
+                    return True
+        stack.extend(n.sources)
+    return False
 
 
 def _sql_alias_collision(rops, name: str) -> bool:
@@ -295,8 +315,12 @@ def classify(chain, ops, r, rops=None) -> Dict[str, List[str]]:
         hit = None
         if what == "column" and (be, pat) in KNOWN_COLUMN:
             site, need = KNOWN_COLUMN[(be, pat)]
-            if any(t in types for t in need.split("|")):
-                hit = (site, "user-column-named-" + pat.replace("*", "<column>"))
+            if need.endswith("+value-arg"):
+                ok_site = _has_value_arg(ops, need.split("+")[0])
+            else:
+                ok_site = any(t in types for t in need.split("|"))
+            if ok_site:
+                hit = (site, "user-column-named-" + (("<column>" + pat[1:]) if pat.startswith("*") else pat.replace("*", "<N>")))
         if what == "table" and be == "sqlite" and pat.endswith("*") and rops is not None and _sql_alias_collision(rops, new):
             hit = ("sql_model.SQLModel.to_sql", "user-table-named-like-generated-subquery-name")
         if hit is not None:
